@@ -263,6 +263,10 @@ func iohelpLayoutRules(c *core.Ctx, p *load.Prog, rWidth, rGUID, rBuild string) 
 		}
 		for _, f := range []*ioFn{rd, wr} {
 			n++
+			if g := f.usesGenericHelper(); g != "" {
+				c.Undecide("iohelp.%s goes through the generic helper %s: the layout rules do not instantiate type parameters", f.name, g)
+				continue
+			}
 			pr := f.probes()
 			okProbe := len(pr) >= 1
 			for _, x := range pr {
@@ -575,7 +579,8 @@ func dateMultiplier(f *ioFn) int {
 // the spec order and with each other.
 func guidTables(c *core.Ctx, p *load.Prog, rule string) {
 	// ReadGUIDBytes: composite literal [16]byte{buf[i]...}: wire index of each value byte
-	lit := func(f *ioFn) ([]int, bool) {
+	var lit func(f *ioFn) ([]int, bool)
+	lit = func(f *ioFn) ([]int, bool) {
 		var out []int
 		ok := false
 		f.inspectAll(func(_ *ioFn, n ast.Node) bool {
@@ -605,15 +610,107 @@ func guidTables(c *core.Ctx, p *load.Prog, rule string) {
 		return out, ok && len(out) == 16
 	}
 	spec := specGUIDOrder[:]
+	// table-driven form: a loop over a package-level table of 16 constants that
+	// nothing writes, `for i, j := range T { dst[i] = src[j] }` (or the inverse)
+	tableLoop := func(f *ioFn) ([]int, bool) {
+		var out []int
+		f.inspectAll(func(g *ioFn, n ast.Node) bool {
+			rs, is := n.(*ast.RangeStmt)
+			if !is || out != nil {
+				return true
+			}
+			tid, isId := ast.Unparen(rs.X).(*ast.Ident)
+			kid, isK := rs.Key.(*ast.Ident)
+			vid, isV := rs.Value.(*ast.Ident)
+			if !isId || !isK || !isV || len(rs.Body.List) != 1 {
+				return true
+			}
+			tv, isVar := g.info.ObjectOf(tid).(*types.Var)
+			if !isVar || tv.Parent() != tv.Pkg().Scope() {
+				return true
+			}
+			tab, okT := packageTable(f.p, tv)
+			if !okT || len(tab) != 16 {
+				return true
+			}
+			as, isA := rs.Body.List[0].(*ast.AssignStmt)
+			if !isA || len(as.Lhs) != 1 || len(as.Rhs) != 1 || as.Tok != token.ASSIGN {
+				return true
+			}
+			li, ok1 := ast.Unparen(as.Lhs[0]).(*ast.IndexExpr)
+			ri, ok2 := ast.Unparen(as.Rhs[0]).(*ast.IndexExpr)
+			if !ok1 || !ok2 {
+				return true
+			}
+			lk, isLk := ast.Unparen(li.Index).(*ast.Ident)
+			rk, isRk := ast.Unparen(ri.Index).(*ast.Ident)
+			if !isLk || !isRk {
+				return true
+			}
+			ko, vo := g.info.ObjectOf(kid), g.info.ObjectOf(vid)
+			switch {
+			case g.info.ObjectOf(lk) == ko && g.info.ObjectOf(rk) == vo:
+				// dst[i] = src[T[i]]
+				out = append([]int{}, tab...)
+			case g.info.ObjectOf(lk) == vo && g.info.ObjectOf(rk) == ko:
+				// dst[T[i]] = src[i]: the inverse table
+				inv := make([]int, 16)
+				for i := range inv {
+					inv[i] = -1
+				}
+				for i, j := range tab {
+					if j >= 0 && j < 16 {
+						inv[j] = i
+					}
+				}
+				out = inv
+			}
+			return true
+		})
+		return out, len(out) == 16
+	}
+	plainLit := lit
+	lit = func(f *ioFn) ([]int, bool) {
+		if t, ok := plainLit(f); ok {
+			return t, true
+		}
+		return tableLoop(f)
+	}
+	// recognised: one of the forms the rule reads was found at all
+	recognised := func(f *ioFn) bool {
+		found := false
+		f.inspectAll(func(_ *ioFn, n ast.Node) bool {
+			if cl, is := n.(*ast.CompositeLit); is && len(cl.Elts) == 16 {
+				found = true
+			}
+			if as, is := n.(*ast.AssignStmt); is && len(as.Lhs) == 1 && len(as.Rhs) == 1 {
+				_, a := ast.Unparen(as.Lhs[0]).(*ast.IndexExpr)
+				_, b := ast.Unparen(as.Rhs[0]).(*ast.IndexExpr)
+				if a && b {
+					found = true
+				}
+			}
+			return true
+		})
+		return found
+	}
 	if f := ioFunc(c, p, "ReadGUIDBytes"); f != nil {
 		// value[i] = buf[t[i]]  => wire position t[i] holds value byte i
 		t, ok := lit(f)
-		c.Check(rule, "ReadGUIDBytes permutation == spec", f.pos(), ok && equalInts(t, spec), fmt.Sprintf("table %v, wire format %v", t, spec))
+		if !ok && !recognised(f) {
+			c.Undecide("iohelp.ReadGUIDBytes: the byte order is neither a 16-element literal, 16 constant stores, nor a loop over a constant table: not recognised")
+		} else {
+			c.Check(rule, "ReadGUIDBytes permutation == spec", f.pos(), ok && equalInts(t, spec), fmt.Sprintf("table %v, wire format %v", t, spec))
+		}
 	}
 	if f := ioFunc(c, p, "WriteGUID"); f != nil {
 		// flipped[j] = guid[t[j]] => wire position j holds value byte t[j]
 		t, ok := lit(f)
-		c.Check(rule, "WriteGUID permutation == spec", f.pos(), ok && equalInts(t, spec), fmt.Sprintf("table %v, wire format %v", t, spec))
+		if !ok && !recognised(f) {
+			c.Undecide("iohelp.WriteGUID: the byte order is neither a 16-element literal, 16 constant stores, nor a loop over a constant table: not recognised")
+		} else {
+			c.Check(rule, "WriteGUID permutation == spec", f.pos(), ok && equalInts(t, spec), fmt.Sprintf("table %v, wire format %v", t, spec))
+		}
 		// the whole permuted array is written: w.Write(X[:]) with X a [16]byte
 		whole := false
 		for _, call := range f.calls() {
@@ -670,7 +767,16 @@ func guidTables(c *core.Ctx, p *load.Prog, rule string) {
 				}
 			}
 		}
-		c.Check(rule, "WriteGUIDBytes permutation == spec", f.pos(), cnt == 16 && equalInts(t, spec), fmt.Sprintf("table %v (%d stores), wire format %v", t, cnt, spec))
+		if cnt == 0 {
+			if lt, okl := tableLoop(f); okl {
+				t, cnt = lt, 16
+			}
+		}
+		if cnt == 0 && !recognised(f) {
+			c.Undecide("iohelp.WriteGUIDBytes: the byte order is neither 16 constant stores, a copied literal, nor a loop over a constant table: not recognised")
+		} else {
+			c.Check(rule, "WriteGUIDBytes permutation == spec", f.pos(), cnt == 16 && equalInts(t, spec), fmt.Sprintf("table %v (%d stores), wire format %v", t, cnt, spec))
+		}
 		pr := f.probes()
 		c.Check(rule, "WriteGUIDBytes bounds probe covers 16 bytes", f.pos(), len(pr) == 1 && pr[0] >= 15, fmt.Sprintf("probes %v", pr))
 	}
@@ -737,12 +843,17 @@ func iohelpStreamWidths(c *core.Ctx, p *load.Prog, rule string) {
 		w := stemWidth[stem]
 		if f := ioFunc(c, p, "Read"+stem); f != nil {
 			n++
+			if g := f.usesGenericHelper(); g != "" {
+				c.Undecide("iohelp.Read%s goes through the generic helper %s: the layout rules do not instantiate type parameters", stem, g)
+				continue
+			}
 			got := -1
 			target := ""
-			for _, call := range f.calls() {
-				if f.canon(call.Fun) == "io.ReadFull" && len(call.Args) == 2 {
-					target = f.canon(call.Args[0])
-					got = sliceWidth(f, call.Args[1], "r.buffer", scratch)
+			acc := f.streamAccess(false, scratch, 0)
+			if acc.found {
+				target, got = acc.target, acc.width
+				if target == "er" {
+					target = "r"
 				}
 			}
 			// forwarding: the function does no read of its own and calls exactly one
@@ -755,6 +866,10 @@ func iohelpStreamWidths(c *core.Ctx, p *load.Prog, rule string) {
 						continue // the callee carries its own obligations
 					}
 				}
+			}
+			if acc.found && got == -1 && target == "r" {
+				c.Undecide("iohelp.Read%s: the number of bytes read from the stream is not a constant the rule can compute (%s)", stem, acc.owner.pos())
+				continue
 			}
 			c.Check(rule, "Read"+stem+" reads exactly its width", f.pos(), got == w && target == "r", fmt.Sprintf("io.ReadFull(%s, …) of %d bytes; the wire type is %d bytes and must be read through the ErrorReader", target, got, w))
 			if stem != "Bool" && stem != "Byte" && stem != "Uint8" {
@@ -772,17 +887,15 @@ func iohelpStreamWidths(c *core.Ctx, p *load.Prog, rule string) {
 		}
 		if f := ioFunc(c, p, "Write"+stem); f != nil {
 			n++
+			if g := f.usesGenericHelper(); g != "" {
+				c.Undecide("iohelp.Write%s goes through the generic helper %s: the layout rules do not instantiate type parameters", stem, g)
+				continue
+			}
 			got := -1
 			lit := false
-			for _, call := range f.calls() {
-				if f.canon(call.Fun) == "w.Write" && len(call.Args) == 1 {
-					if cl, ok := call.Args[0].(*ast.CompositeLit); ok {
-						got = len(cl.Elts)
-						lit = true
-					} else {
-						got = sliceWidth(f, call.Args[0], "w.buffer", scratch)
-					}
-				}
+			wacc := f.streamAccess(true, scratch, 0)
+			if wacc.found {
+				got, lit = wacc.width, wacc.lit
 			}
 			if got == -1 {
 				sib := f.siblingStreamCalls("Write", "w")
@@ -791,6 +904,10 @@ func iohelpStreamWidths(c *core.Ctx, p *load.Prog, rule string) {
 						continue // forwards to the writer of a type of the same width
 					}
 				}
+			}
+			if wacc.found && got == -1 {
+				c.Undecide("iohelp.Write%s: the number of bytes written to the stream is not a constant the rule can compute (%s)", stem, wacc.owner.pos())
+				continue
 			}
 			c.Check(rule, "Write"+stem+" writes exactly its width", f.pos(), got == w, fmt.Sprintf("writes %d bytes (literal=%v); the wire type is %d bytes", got, lit, w))
 			if !lit {
@@ -995,6 +1112,11 @@ func iohelpStaleReads(c *core.Ctx, p *load.Prog, rule string) {
 					viaReader = true
 					return false
 				}
+				if call, ok := nd.(*ast.CallExpr); ok && f.canon(call.Fun) == "r.Read" && len(call.Args) == 1 {
+					// ErrorReader.Read itself: the clearing read
+					viaReader = true
+					return false
+				}
 				if _, isRet := nd.(*ast.ReturnStmt); isRet {
 					ast.Inspect(nd, func(k ast.Node) bool {
 						if sel, ok := k.(*ast.SelectorExpr); ok && f.canon(sel) == "r.buffer" {
@@ -1002,6 +1124,48 @@ func iohelpStaleReads(c *core.Ctx, p *load.Prog, rule string) {
 						}
 						return true
 					})
+				}
+				return true
+			})
+		}
+		// helpers the function hands its reader to are part of what it does
+		for _, g := range f.closure() {
+			if g == f || g.fd.Name.IsExported() {
+				continue
+			}
+			alias := map[types.Object]bool{}
+			mentionsScratch := func(n ast.Node) bool {
+				hit := false
+				ast.Inspect(n, func(k ast.Node) bool {
+					if sel, ok := k.(*ast.SelectorExpr); ok && (g.canon(sel) == "r.buffer" || g.canon(sel) == "er.buffer") {
+						hit = true
+					}
+					if id, ok := k.(*ast.Ident); ok && alias[g.info.ObjectOf(id)] {
+						hit = true
+					}
+					return true
+				})
+				return hit
+			}
+			ast.Inspect(g.fd.Body, func(nd ast.Node) bool {
+				switch x := nd.(type) {
+				case *ast.AssignStmt:
+					if len(x.Lhs) == len(x.Rhs) {
+						for i, l := range x.Lhs {
+							if id, ok := l.(*ast.Ident); ok && mentionsScratch(x.Rhs[i]) {
+								alias[g.info.ObjectOf(id)] = true
+							}
+						}
+					}
+				case *ast.CallExpr:
+					fn := g.canon(x.Fun)
+					if (fn == "io.ReadFull" && len(x.Args) == 2 && (g.canon(x.Args[0]) == "r" || g.canon(x.Args[0]) == "er")) || fn == "r.Read" || fn == "er.Read" {
+						viaReader = true
+					}
+				case *ast.ReturnStmt:
+					if mentionsScratch(x) {
+						usesScratch = true
+					}
 				}
 				return true
 			})
@@ -1885,4 +2049,237 @@ func (f *ioFn) canonBuf(e ast.Expr) string {
 		}
 	}
 	return s
+}
+
+
+// streamAcc is the access a stream helper makes to its own stream.
+type streamAcc struct {
+	found   bool   // an access was found
+	target  string // canonical stream operand of the access ("r", "er", "w", "ew", or something else)
+	width   int    // bytes moved, -1 when not a constant the rule can compute
+	lit     bool   // the bytes are a composite literal
+	generic bool   // a helper on the way has type parameters: not instantiated by this rule
+	owner   *ioFn  // the function that holds the access
+}
+
+// isGeneric: the declaration has type parameters.
+func (f *ioFn) isGeneric() bool {
+	return f.fd.Type.TypeParams != nil && len(f.fd.Type.TypeParams.List) > 0
+}
+
+// streamAccess finds the read (write=false) or write (write=true) f makes on
+// its own stream: io.ReadFull(S, X) / S.Read(X) / S.Write(X) in f itself, or
+// in a package-local helper that f hands its stream to (depth-limited).
+func (f *ioFn) streamAccess(write bool, scratch int, depth int) streamAcc {
+	streams := map[string]bool{"r": true, "er": true}
+	bases := []string{"r.buffer", "er.buffer"}
+	if write {
+		streams = map[string]bool{"w": true, "ew": true}
+		bases = []string{"w.buffer", "ew.buffer"}
+	}
+	widthOf := func(e ast.Expr) (int, bool) {
+		e = ast.Unparen(e)
+		if cl, ok := e.(*ast.CompositeLit); ok {
+			return len(cl.Elts), true
+		}
+		// a local with one definition stands for that definition
+		for hop := 0; hop < 3; hop++ {
+			id, ok := e.(*ast.Ident)
+			if !ok {
+				break
+			}
+			o := f.info.ObjectOf(id)
+			var def ast.Expr
+			defs := 0
+			ast.Inspect(f.fd.Body, func(n ast.Node) bool {
+				if as, ok := n.(*ast.AssignStmt); ok && len(as.Lhs) == len(as.Rhs) {
+					for i, l := range as.Lhs {
+						if lid, ok := l.(*ast.Ident); ok && f.info.ObjectOf(lid) == o {
+							defs++
+							def = as.Rhs[i]
+						}
+					}
+				}
+				return true
+			})
+			if defs != 1 {
+				break
+			}
+			e = ast.Unparen(def)
+		}
+		for _, b := range bases {
+			if w := sliceWidth(f, e, b, scratch); w >= 0 {
+				return w, false
+			}
+		}
+		// arr[:] of a fixed-size array
+		if se, ok := e.(*ast.SliceExpr); ok && se.Low == nil && se.High == nil {
+			if t := f.info.TypeOf(se.X); t != nil {
+				if arr, ok := t.Underlying().(*types.Array); ok {
+					return int(arr.Len()), false
+				}
+			}
+		}
+		return -1, false
+	}
+	for _, call := range f.calls() {
+		fn := f.canon(call.Fun)
+		if !write && fn == "io.ReadFull" && len(call.Args) == 2 {
+			w, _ := widthOf(call.Args[1])
+			return streamAcc{found: true, target: f.canon(call.Args[0]), width: w, owner: f}
+		}
+		if sel, ok := ast.Unparen(call.Fun).(*ast.SelectorExpr); ok && len(call.Args) == 1 {
+			if (!write && sel.Sel.Name == "Read") || (write && sel.Sel.Name == "Write") {
+				if tgt := f.canon(sel.X); streams[tgt] {
+					w, lit := widthOf(call.Args[0])
+					return streamAcc{found: true, target: tgt, width: w, lit: lit, owner: f}
+				}
+			}
+		}
+	}
+	if depth >= 3 {
+		return streamAcc{}
+	}
+	pk := f.p.Iohelp()
+	for _, call := range f.calls() {
+		cal := load.Callee(f.info, call)
+		if cal == nil || cal.Pkg() != pk.Types || cal.Exported() {
+			continue
+		}
+		// handed our stream: as receiver or as an argument
+		passes := false
+		if sel, ok := ast.Unparen(call.Fun).(*ast.SelectorExpr); ok && streams[f.canon(sel.X)] {
+			passes = true
+		}
+		for _, a := range call.Args {
+			if streams[f.canon(a)] {
+				passes = true
+			}
+		}
+		if !passes {
+			continue
+		}
+		fd := f.p.Decl(cal)
+		if fd == nil || fd.Body == nil {
+			continue
+		}
+		h := &ioFn{p: f.p, info: f.info, fd: fd, name: load.FuncName(cal)}
+		if h.isGeneric() {
+			return streamAcc{generic: true, owner: h}
+		}
+		if acc := h.streamAccess(write, scratch, depth+1); acc.found || acc.generic {
+			// the helper's own stream name stands for ours
+			if acc.found && streams[acc.target] {
+				if write {
+					acc.target = "w"
+				} else {
+					acc.target = "r"
+				}
+			}
+			return acc
+		}
+	}
+	return streamAcc{}
+}
+
+// usesGenericHelper: some function of f's closure has type parameters.
+func (f *ioFn) usesGenericHelper() string {
+	for _, g := range f.closure() {
+		if g != f && g.isGeneric() {
+			return g.name
+		}
+	}
+	return ""
+}
+
+
+// packageTable: the package-level variable v is declared with a composite
+// literal of integer constants and no function of the package assigns to it
+// or to one of its elements, or takes its address.
+func packageTable(p *load.Prog, v *types.Var) ([]int, bool) {
+	pk := p.Iohelp()
+	info := pk.TypesInfo
+	var tab []int
+	okDecl := false
+	for _, file := range pk.Syntax {
+		for _, d := range file.Decls {
+			gd, isG := d.(*ast.GenDecl)
+			if !isG {
+				continue
+			}
+			for _, sp := range gd.Specs {
+				vs, isV := sp.(*ast.ValueSpec)
+				if !isV {
+					continue
+				}
+				for i, nm := range vs.Names {
+					if info.Defs[nm] != types.Object(v) || i >= len(vs.Values) {
+						continue
+					}
+					cl, isC := ast.Unparen(vs.Values[i]).(*ast.CompositeLit)
+					if !isC {
+						return nil, false
+					}
+					okDecl = true
+					for _, e := range cl.Elts {
+						if _, isKV := e.(*ast.KeyValueExpr); isKV {
+							return nil, false
+						}
+						k, isK := constInt(info, e)
+						if !isK {
+							return nil, false
+						}
+						tab = append(tab, k)
+					}
+				}
+			}
+		}
+	}
+	if !okDecl {
+		return nil, false
+	}
+	written := false
+	for _, file := range pk.Syntax {
+		ast.Inspect(file, func(n ast.Node) bool {
+			switch x := n.(type) {
+			case *ast.AssignStmt:
+				for _, l := range x.Lhs {
+					root := ast.Unparen(l)
+					for {
+						if ix, is := root.(*ast.IndexExpr); is {
+							root = ast.Unparen(ix.X)
+							continue
+						}
+						break
+					}
+					if id, is := root.(*ast.Ident); is && info.ObjectOf(id) == types.Object(v) {
+						written = true
+					}
+				}
+			case *ast.IncDecStmt:
+				if ix, is := ast.Unparen(x.X).(*ast.IndexExpr); is {
+					if id, is := ast.Unparen(ix.X).(*ast.Ident); is && info.ObjectOf(id) == types.Object(v) {
+						written = true
+					}
+				}
+			case *ast.UnaryExpr:
+				if x.Op == token.AND {
+					root := ast.Unparen(x.X)
+					if ix, is := root.(*ast.IndexExpr); is {
+						root = ast.Unparen(ix.X)
+					}
+					if id, is := root.(*ast.Ident); is && info.ObjectOf(id) == types.Object(v) {
+						written = true
+					}
+				}
+			case *ast.SliceExpr:
+				// v[:] hands out a mutable view
+				if id, is := ast.Unparen(x.X).(*ast.Ident); is && info.ObjectOf(id) == types.Object(v) {
+					written = true
+				}
+			}
+			return true
+		})
+	}
+	return tab, !written
 }
